@@ -192,6 +192,12 @@ pub fn check(e: &Engine) {
 		&|| scenario(true),
 		&run,
 	);
+	e.explore(
+		"real-fs",
+		LegOpts::realtime(e.tier.pick(48, 1_200), 8, "real native and poll(40 ms) watchers on a scratch tree: create / write / rename / remove / mkdir in directly and deeply nested places, path set (3 dirs incl. a nested one, recursive or not) changed at run time; every change under a configured path must be named by a delivered event within 2.5 s, nothing outside the tree is reported; non-trivial = >=2 asserted changes"),
+		&super::realfs::strategy,
+		&super::realfs::run,
+	);
 	e.require_label("ledger", "2+batches", 0.3);
 	e.require_label("ledger", "sent-while-handler-running", 0.1);
 }
